@@ -1,11 +1,17 @@
 import CircusProofs.Core.SigExec
 /-!
 The signal invariant through `dispatch`, every command, the event loop and the stimuli:
-`si_run : SI s → SI (run s ops)`, and `SI (initState …)`.
+
+* `si_run : SI none s → SI none (run s ops)` and `si_init` — the invariant along every run;
+* `stepM_si_j : SI (some jm) s → OpSafe op → SI (some jm) (step s op)` — the justifying mode through one
+  step for every stimulus except a request whose command is `signal`, `kill`, `set` or `add` (the four that
+  may themselves ask for signal 9).
 -/
 set_option linter.unusedSimpArgs false
 set_option linter.unusedVariables false
 namespace Circus.Core
+
+variable {J : JMode}
 
 attribute [aesop safe apply (rule_sets := [Sg])] exec_si
 
@@ -17,16 +23,16 @@ attribute [aesop safe apply (rule_sets := [Sg])] Call.free_ite
 
 @[aesop safe apply (rule_sets := [Sg])]
 theorem syncCoroutine_si (name : String) (c : Call) (extra : List TopCb) (hc : c.free = true) :
-    Pres SI (syncCoroutine name c extra) := by
+    Pres (SI J) (syncCoroutine name c extra) := by
   unfold syncCoroutine; sg
 
-theorem syncPlain_si {α : Type} (name : String) (body : M (R α)) (hb : Pres SI body) : Pres SI (syncPlain name body) := by
+theorem syncPlain_si {α : Type} (name : String) (body : M (R α)) (hb : Pres (SI J) body) : Pres (SI J) (syncPlain name body) := by
   unfold syncPlain
   aesop (add safe apply hb) (rule_sets := [Sg]) (config := { terminal := true, useDefaultSimpSet := false, useSimpAll := false, maxRuleApplications := 3000 })
 
 /-- a coroutine started outside `synchronized` (`Kill.execute`) -/
-theorem plainCoroutine_si (c : Call) (extra : List TopCb) (s : State) (h : SI s) (hc : CallOk s c) :
-    SI (plainCoroutine c extra s).2 := by
+theorem plainCoroutine_si (c : Call) (extra : List TopCb) (s : State) (h : SI J s) (hc : CallOk J s c) :
+    SI J (plainCoroutine c extra s).2 := by
   unfold plainCoroutine
   simp only [bind, pure]
   have h1 := newTop_si extra s h
@@ -37,36 +43,42 @@ theorem plainCoroutine_si (c : Call) (extra : List TopCb) (s : State) (h : SI s)
   exact armTop_si _ _ ((exec_si fuelDefault).run _ _ h1 (CallOk.mono ho hc))
 
 @[aesop safe apply (rule_sets := [Sg])]
-theorem execSSR_si (kind : String) (p : JVal) : Pres SI (execSSR kind p) := by
+theorem execSSR_si (kind : String) (p : JVal) : Pres (SI J) (execSSR kind p) := by
   unfold execSSR; sg
 @[aesop safe apply (rule_sets := [Sg])]
-theorem execIncrDecr_si (sg : Int) (p : JVal) : Pres SI (execIncrDecr sg p) := by
+theorem execIncrDecr_si (sg : Int) (p : JVal) : Pres (SI J) (execIncrDecr sg p) := by
   unfold execIncrDecr; sg
 @[aesop safe apply (rule_sets := [Sg])]
-theorem execReload_si (p : JVal) : Pres SI (execReload p) := by
+theorem execReload_si (p : JVal) : Pres (SI J) (execReload p) := by
   unfold execReload; sg
 @[aesop safe apply (rule_sets := [Sg])]
-theorem setOpt_si (u : Nat) (k : String) (v : JVal) : Pres SI (setOpt u k v) := by
+theorem execRm_si (p : JVal) : Pres (SI J) (execRm p) := by
+  unfold execRm; sg
+
+/-! ### the four requests that may ask for signal 9 themselves: only without a justification claim -/
+
+@[aesop safe apply (rule_sets := [Sg])]
+theorem setOpt_si (u : Nat) (k : String) (v : JVal) : Pres (SI none) (setOpt u k v) := by
   unfold setOpt; sg
 @[aesop safe apply (rule_sets := [Sg])]
-theorem setOptBody_si (u : Nat) (k : String) (v : JVal) (b : Bool) : Pres SI (setOptBody u k v b) := by
+theorem setOptBody_si (u : Nat) (k : String) (v : JVal) (b : Bool) : Pres (SI none) (setOptBody u k v b) := by
   unfold setOptBody; sg
 @[aesop safe apply (rule_sets := [Sg])]
 theorem syncSetOpt_si (u : Nat) (k : String) (v : JVal) (b : Bool) :
-    Pres SI (syncPlain "watcher_set_opt" (setOptBody u k v b)) := syncPlain_si _ _ (setOptBody_si u k v b)
+    Pres (SI none) (syncPlain "watcher_set_opt" (setOptBody u k v b)) := syncPlain_si _ _ (setOptBody_si u k v b)
 @[aesop safe apply (rule_sets := [Sg])]
-theorem execSet_si (p : JVal) : Pres SI (execSet p) := by
+theorem execSet_si (p : JVal) : Pres (SI none) (execSet p) := by
   unfold execSet; sg
 
 /-- **the `kill` command**: the pids it hands to `kill_process` are active, hence listed, hence have
     their `Process` object -/
 @[aesop safe apply (rule_sets := [Sg])]
-theorem execKill_si (props : JVal) : Pres SI (execKill props) := by
+theorem execKill_si (props : JVal) : Pres (SI none) (execKill props) := by
   intro s h
   unfold execKill
   simp only [bind]
   have hq0 := squiet_getWatcherCmd ((props.get? "name").getD .null) s
-  have h0 := getWatcherCmd_s siLeafS ((props.get? "name").getD .null) s h
+  have h0 := getWatcherCmd_s (siLeafS0 none) ((props.get? "name").getD .null) s h
   generalize getWatcherCmd ((props.get? "name").getD .null) s = r0 at hq0 h0 ⊢
   obtain ⟨r, s0⟩ := r0
   cases r with
@@ -74,25 +86,22 @@ theorem execKill_si (props : JVal) : Pres SI (execKill props) := by
   | ok u =>
     simp only [pure]
     have hq1 := squiet_activeProcs u s0
-    have h1 := activeProcs_s siLeafS u s0 h0
+    have h1 := activeProcs_s (siLeafS0 none) u s0 h0
     have hact : ∀ q ∈ (activeProcs u s0).1, HasObj (activeProcs u s0).2 q := fun q hq =>
       hq1.ext.obj q (listed_hasObj h0.pid (activeProcs_subset u s0 q hq))
     generalize activeProcs u s0 = r1 at h1 hact ⊢
     obtain ⟨act, s1⟩ := r1
-    refine plainCoroutine_si _ [] s1 h1 ?_
+    refine plainCoroutine_si _ [] s1 h1 ⟨?_, fun hn => by cases hn⟩
     intro q hq
     split at hq
     · exact hact q (List.mem_filter.mp hq).1
     · exact hact q hq
 
 @[aesop safe apply (rule_sets := [Sg])]
-theorem execSignal_si (p : JVal) : Pres SI (execSignal p) := by
+theorem execSignal_si (p : JVal) : Pres (SI none) (execSignal p) := by
   unfold execSignal; sg
-@[aesop safe apply (rule_sets := [Sg])]
-theorem execRm_si (p : JVal) : Pres SI (execRm p) := by
-  unfold execRm; sg
 
-theorem addCore_si (p : JVal) : Pres SI (addCore p) := by
+theorem addCore_si (p : JVal) : Pres (SI none) (addCore p) := by
   unfold addCore
   split <;> dsimp only <;> split
   all_goals first
@@ -108,28 +117,98 @@ theorem addCore_si (p : JVal) : Pres SI (addCore p) := by
     | sg
 
 @[aesop safe apply (rule_sets := [Sg])]
-theorem syncAdd_si (p : JVal) : Pres SI (syncPlain "arbiter_add_watcher" (addCore p)) := syncPlain_si _ _ (addCore_si p)
+theorem syncAdd_si (p : JVal) : Pres (SI none) (syncPlain "arbiter_add_watcher" (addCore p)) := syncPlain_si _ _ (addCore_si p)
 @[aesop safe apply (rule_sets := [Sg])]
-theorem execAdd_si (p : JVal) : Pres SI (execAdd p) := by
+theorem execAdd_si (p : JVal) : Pres (SI none) (execAdd p) := by
   unfold execAdd; sg
+
+/-! ### dispatch -/
+
+/-- the commands that cannot ask for a signal themselves -/
+def cmdSafe (c : String) : Prop := c ≠ "signal" ∧ c ≠ "kill" ∧ c ≠ "set" ∧ c ≠ "add"
+
 @[aesop safe apply (rule_sets := [Sg])]
-theorem validateExecute_si (c : String) (p : JVal) : Pres SI (validateExecute c p) := by
+theorem validateExecute_si (c : String) (p : JVal) : Pres (SI none) (validateExecute c p) := by
   unfold validateExecute; sg
+
+theorem validateExecute_si_j (c : String) (p : JVal) (hc : cmdSafe c) : Pres (SI J) (validateExecute c p) := by
+  obtain ⟨h1, h2, h3, h4⟩ := hc
+  unfold validateExecute
+  apply Pres.ite
+  · sg
+  · split
+    all_goals first
+      | (exfalso; first | exact h1 rfl | exact h2 rfl | exact h3 rfl | exact h4 rfl)
+      | sg
+
+/-- a control-socket frame whose command (if it has one) is none of `signal`, `kill`, `set`, `add` -/
+def msgSafe (msg : Option JVal) : Prop :=
+  ∀ j name, msg = some j → j.get? "command" = some (.str name) → cmdSafe (pyLower name)
+
 @[aesop safe apply (rule_sets := [Sg])]
-theorem handleMessage_si (cid : Option String) (msg : Option JVal) : Pres SI (handleMessage cid msg) := by
+theorem handleMessage_si (cid : Option String) (msg : Option JVal) : Pres (SI none) (handleMessage cid msg) := by
   unfold handleMessage; sg
+
+theorem handleMessage_si_j (cid : Option String) (msg : Option JVal) (hm : msgSafe msg) :
+    Pres (SI J) (handleMessage cid msg) := by
+  unfold handleMessage
+  cases msg with
+  | none => sg
+  | some j =>
+    simp only
+    apply Pres.ite
+    · sg
+    · cases hcmd : j.get? "command" with
+      | none => sg
+      | some nm =>
+        cases nm with
+        | str name =>
+          have hve : ∀ p, Pres (SI J) (validateExecute (pyLower name) p) := fun p =>
+            validateExecute_si_j _ p (hm j name rfl hcmd)
+          simp only
+          aesop (add safe 0 apply hve) (erase validateExecute_si) (rule_sets := [Sg])
+            (config := { terminal := true, useDefaultSimpSet := false, useSimpAll := false, maxRuleApplications := 3000 })
+        | _ => sg
+
+theorem quit_safe : msgSafe (some (.obj [("command", .str "quit"), ("properties", .obj [])])) := by
+  intro j name hj hc
+  simp only [Option.some.injEq] at hj
+  subst hj
+  have : name = "quit" := by
+    simp [JVal.get?, List.lookup] at hc
+    exact hc.symm
+  subst this
+  unfold cmdSafe
+  decide +kernel
+
+theorem reload_safe : msgSafe (some reloadMsg) := by
+  intro j name hj hc
+  simp only [Option.some.injEq] at hj
+  subst hj
+  have : name = "reload" := by
+    simp [reloadMsg, JVal.get?, List.lookup] at hc
+    exact hc.symm
+  subst this
+  unfold cmdSafe
+  decide +kernel
+
+/-- `SysHandler._quit`: a `quit` request, in any mode -/
 @[aesop safe apply (rule_sets := [Sg])]
-theorem sigQuit_si : Pres SI sigQuit := by
-  unfold sigQuit; sg
+theorem sigQuit_si : Pres (SI J) sigQuit := by
+  have h := handleMessage_si_j (J := J) none _ quit_safe
+  unfold sigQuit
+  aesop (add safe 0 apply h) (erase handleMessage_si) (rule_sets := [Sg])
+    (config := { terminal := true, useDefaultSimpSet := false, useSimpAll := false, maxRuleApplications := 3000 })
+
 @[aesop safe apply (rule_sets := [Sg])]
-theorem stopController_si : Pres SI stopController := by
-  have h1 : ∀ w, Pres SI (emit (.close w)) := fun w => emit_si _ rfl
+theorem stopController_si : Pres (SI J) stopController := by
+  have h1 : ∀ w, Pres (SI J) (emit (.close w)) := fun w => emit_si _ rfl rfl
   unfold stopController
   aesop (add safe apply h1) (rule_sets := [Sg]) (config := { terminal := true, useDefaultSimpSet := false, useSimpAll := false, maxRuleApplications := 3000 })
 
 /-- **one turn of the event loop**: the callback taken off the ready queue resumes a continuation
     that was pending, with what it knows -/
-theorem settleStep_si : Pres SI settleStep := by
+theorem settleStep_si : Pres (SI J) settleStep := by
   intro s h
   unfold settleStep
   simp only [bind, getS]
@@ -144,43 +223,68 @@ theorem settleStep_si : Pres SI settleStep := by
     | closeCtl => exact stopController_si _ hd
     | callback n => exact sigQuit_si _ hd
 
-theorem settle_si (n : Nat) : Pres SI (settle n) := by
-  have hs := settleStep_si
-  have ho := emit_si .outOfFuel rfl
+theorem settle_si (n : Nat) : Pres (SI J) (settle n) := by
+  have hs := settleStep_si (J := J)
+  have ho := emit_si (J := J) .outOfFuel rfl rfl
   induction n with
   | zero => unfold settle; exact ho
   | succ n ih =>
     unfold settle
     aesop (add safe apply ih, safe apply hs) (rule_sets := [Sg]) (config := { terminal := true, useDefaultSimpSet := false, useSimpAll := false, maxRuleApplications := 3000 })
 
-theorem stepOp_si (op : Op) : Pres SI (stepOp op) := by
-  have hc := emit_si .conflict rfl
-  have hn := emit_si .nosleeper rfl
-  have hadv : ∀ ms ds, Pres SI (updK fun k => k.advance ms ds) := fun ms ds =>
-    updK_si _ (fun k => KGMono.advance k ms ds) (fun k => KStep.advance k ms ds)
-  have hdie : ∀ p st, Pres SI (updK fun k => k.die p st) := fun p st =>
-    updK_si _ (fun k => KGMono.die k p st) (fun k => KStep.die k p st)
-  have hflt : ∀ n p st, Pres SI (updK fun k => k.addFault n p st) := fun n p st =>
-    updK_si _ (fun k => KGMono.addFault k n p st) (fun k => KStep.addFault k n p st)
-  cases op <;> simp only [stepOp] <;>
-  aesop (add safe apply hc, safe apply hn, safe apply hadv, safe apply hdie, safe apply hflt) (rule_sets := [Sg])
-    (config := { terminal := true, useDefaultSimpSet := false, useSimpAll := false, maxRuleApplications := 3000 })
+/-- the stimuli that cannot ask for a signal themselves: everything but a request for `signal`, `kill`,
+    `set` or `add` -/
+def OpSafe : Op → Prop
+  | .req _ msg => msgSafe msg
+  | _ => True
 
-theorem stepTail_si : Pres SI stepTail := by
-  have hst := settle_si
+theorem stepOp_si_j (op : Op) (hop : OpSafe op) : Pres (SI J) (stepOp op) := by
+  have hc := emit_si (J := J) .conflict rfl rfl
+  have hn := emit_si (J := J) .nosleeper rfl rfl
+  have hadv : ∀ ms ds, Pres (SI J) (updK fun k => k.advance ms ds) := fun ms ds =>
+    updK_si _ (fun k => KGMono.advance k ms ds) (fun k => KNMono.advance k ms ds) (fun k => KStep.advance k ms ds)
+  have hdie : ∀ p st, Pres (SI J) (updK fun k => k.die p st) := fun p st =>
+    updK_si _ (fun k => KGMono.die k p st) (fun k => KNMono.die k p st) (fun k => KStep.die k p st)
+  have hflt : ∀ n p st, Pres (SI J) (updK fun k => k.addFault n p st) := fun n p st =>
+    updK_si _ (fun k => KGMono.addFault k n p st) (fun k => KNMono.addFault k n p st) (fun k => KStep.addFault k n p st)
+  have hrl := handleMessage_si_j (J := J) none _ reload_safe
+  cases op with
+  | req cid msg =>
+    simp only [stepOp]
+    exact handleMessage_si_j _ _ hop
+  | sigreq q =>
+    simp only [stepOp]
+    aesop (add safe 0 apply hrl) (erase handleMessage_si) (rule_sets := [Sg])
+      (config := { terminal := true, useDefaultSimpSet := false, useSimpAll := false, maxRuleApplications := 3000 })
+  | _ =>
+    simp only [stepOp]
+    aesop (add safe apply hc, safe apply hn, safe apply hadv, safe apply hdie, safe apply hflt) (rule_sets := [Sg])
+      (config := { terminal := true, useDefaultSimpSet := false, useSimpAll := false, maxRuleApplications := 3000 })
+
+theorem stepOp_si (op : Op) : Pres (SI none) (stepOp op) := by
+  cases op with
+  | req cid msg => simp only [stepOp]; exact handleMessage_si _ _
+  | _ => exact stepOp_si_j _ trivial
+
+theorem stepTail_si : Pres (SI J) stepTail := by
+  have hst := settle_si (J := J)
   unfold stepTail
   aesop (add safe apply hst) (rule_sets := [Sg]) (config := { terminal := true, useDefaultSimpSet := false, useSimpAll := false, maxRuleApplications := 3000 })
 
-theorem stepM_si (op : Op) : Pres SI (stepM op) := by
-  have h1 := stepOp_si
-  have h2 := stepTail_si
-  have h3 : Pres SI (updK Kernel.beginStep) := updK_si _ KGMono.beginStep KStep.beginStep
+theorem stepM_of (op : Op) (h1 : Pres (SI J) (stepOp op)) : Pres (SI J) (stepM op) := by
+  have h2 := stepTail_si (J := J)
+  have h3 : Pres (SI J) (updK Kernel.beginStep) := updK_si _ KGMono.beginStep KNMono.beginStep KStep.beginStep
   unfold stepM
   aesop (add safe apply h1, safe apply h2, safe apply h3) (rule_sets := [Sg])
     (config := { terminal := true, useDefaultSimpSet := false, useSimpAll := false, maxRuleApplications := 3000 })
 
+theorem stepM_si (op : Op) : Pres (SI none) (stepM op) := stepM_of op (stepOp_si op)
+
+/-- **the justifying mode through one step** -/
+theorem stepM_si_j (op : Op) (hop : OpSafe op) : Pres (SI J) (stepM op) := stepM_of op (stepOp_si_j op hop)
+
 /-- **the signal invariant holds along every run** -/
-theorem si_run (s : State) (ops : List Op) (h : SI s) : SI (run s ops) := by
+theorem si_run (s : State) (ops : List Op) (h : SI none s) : SI none (run s ops) := by
   induction ops generalizing s with
   | nil => exact h
   | cons o os ih => exact ih _ (stepM_si o s h)
@@ -188,11 +292,128 @@ theorem si_run (s : State) (ops : List Op) (h : SI s) : SI (run s ops) := by
 /-- the initial state of any configuration whose watchers list no process: no coroutine is
     suspended, the log is empty -/
 theorem si_init (cfg : List Watcher) (bs : List Behav) (aw : Nat) (hcfg : ∀ w ∈ cfg, w.pids = []) :
-    SI (initState cfg bs aw) where
+    SI none (initState cfg bs aw) where
   pid := pidInv_init cfg bs aw hcfg
   fr := fun f hf => by cases hf
   rd := fun r hr => by cases hr
   uniq := fun p => by simp [pendCount, initState]
   reap := fun p st h => by simp [initState] at h
+  just := fun jm hj => by cases hj
+
+/-! ### pids are positive (the daemon is "pid 0" in the `ppid` field) -/
+
+/-- the pid counter and every pid of the process table are positive -/
+def PosInv (s : State) : Prop := 0 < s.k.nextPid ∧ ∀ q ∈ s.k.procs.map (·.pid), 0 < q
+
+theorem pos_frame {α : Type} {m : M α} (h : ∀ s, (m s).2.k = s.k) : Pres PosInv m := by
+  intro s hs
+  unfold PosInv
+  rw [h s]; exact hs
+
+macro "pos_tac" : tactic =>
+  `(tactic| (apply pos_frame; intro s; first
+      | rfl
+      | (simp only [modS, modA, emit, emitEv, emitRep]; done)
+      | (simp only [modS, modA, emit, emitEv, emitRep]; split <;> rfl)))
+
+theorem pos_kstep {s s' : State} (h : PosInv s) (hk : KStep s.k s'.k) : PosInv s' := by
+  unfold PosInv
+  rw [hk.nextPid, hk.pids]; exact h
+
+theorem pos_spawnAdopt (u wid : Nat) : Pres PosInv (spawnAdopt u wid) := by
+  intro s hs
+  cases hr : (s.k.spawn).2 with
+  | none =>
+    rw [spawnAdopt_none u wid s hr]
+    exact pos_kstep hs (spawn_none (k' := (s.k.spawn).1) (by rw [← hr]))
+  | some pid =>
+    rw [spawnAdopt_some u wid s pid hr]
+    obtain ⟨hpe, n, hnp, hpr⟩ := spawn_some (k := s.k) (k' := (s.k.spawn).1) (pid := pid) (by rw [← hr])
+    refine ⟨by show 0 < (s.k.spawn).1.nextPid; rw [hnp]; omega, ?_⟩
+    intro q hq
+    simp only [hpr] at hq
+    rcases List.mem_append.mp hq with hq | hq
+    · exact hs.2 q hq
+    · simp only [List.mem_range'_1] at hq
+      have := hs.1
+      omega
+
+theorem pos_trySetNp (u : Nat) (n : Int) : Pres PosInv (trySetNp u n) := by
+  apply pos_frame; intro s
+  unfold trySetNp
+  simp only
+  generalize (if n < 0 then (0 : Int) else n) = n'
+  split <;> rfl
+
+theorem pos_registerNew (w : Watcher) : Pres PosInv (registerNew w) := by
+  apply pos_frame; intro s
+  unfold registerNew registerChecked
+  split
+  · rfl
+  · split <;> rfl
+
+theorem posLeafX : LeafX PosInv where
+  emit := fun o => by pos_tac
+  runK := fun f hf s hs => pos_kstep hs (hf s.k)
+  emitEv := fun w t q x => by pos_tac
+  popPid := fun u q => by pos_tac
+  bumpHook := fun u h i => by pos_tac
+  setObjStopping := fun q b => by pos_tac
+  setRc := fun q rc => by pos_tac
+  markBlocked := by pos_tac
+  emitRep := fun c i a b d => by pos_tac
+  setStatus := fun u st => by pos_tac
+  trySetNp := pos_trySetNp
+  spawnAdopt := pos_spawnAdopt
+  setWOpt := fun u c => by pos_tac
+  freshId := by pos_tac
+  pushFrame := fun f => by pos_tac
+  removeFrame := fun f => by pos_tac
+  setFrameK := fun f k => by pos_tac
+  armFrame := fun f => by pos_tac
+  pushSleeper := fun sl => by pos_tac
+  armTop := fun t => by pos_tac
+  setClosed := by pos_tac
+  setStopping := by pos_tac
+  setRestarting := by pos_tac
+  setLoopStop := fun b => by pos_tac
+  setSocketEvent := fun b => by pos_tac
+  setSockReady := fun b => by pos_tac
+  clearDone := by pos_tac
+  unregister := fun u => by pos_tac
+  registerNew := fun w _ => pos_registerNew w
+  fireSleeper := fun sl s hs => pos_kstep hs (KStep.setNow s.k _)
+  enqueueResume := fun k v w => by pos_tac
+  enqueueCallback := fun n => by pos_tac
+  setSlot := fun v => by pos_tac
+  pushTop := fun t => by pos_tac
+  finishTop := fun t v => by pos_tac
+  topAddCb := fun t cb => by pos_tac
+  enqueue := fun r => by pos_tac
+  dequeue := by pos_tac
+
+theorem posInv_run (s : State) (ops : List Op) (h : PosInv s) : PosInv (run s ops) :=
+  run_pres (Spec.ofLeafX posLeafX) s ops h
+
+theorem posInv_init (cfg : List Watcher) (bs : List Behav) (aw : Nat) : PosInv (initState cfg bs aw) :=
+  ⟨by simp [initState], fun q hq => by simp [initState] at hq⟩
+
+/-- entering the justifying mode at the current end of the log -/
+theorem SI.enter {s : State} (h : SI none s) (hp : PosInv s) :
+    SI (some ⟨s.log.length, ∃ w ∈ s.ws, w.stopSignal = 9⟩) s where
+  pid := h.pid
+  fr := h.fr
+  rd := h.rd
+  uniq := h.uniq
+  reap := h.reap
+  just := fun jm hj => by
+    cases hj
+    refine ⟨?_, fun w hw h9 => ⟨w, hw, h9⟩, hp.2, hp.1⟩
+    intro pre post p st hl hn
+    exfalso
+    have := congrArg List.length hl
+    simp at this
+    have hn' : s.log.length ≤ pre.length := hn
+    omega
 
 end Circus.Core
